@@ -17,6 +17,71 @@ import RuschmProofs.LocLemmas
 namespace Ruschm.C15
 open Ruschm Eval Interp
 
+/-! ## 1. the lexer: token and error positions are cursors inside the text -/
+
+/-- Every token position `Lex.all` reports is the cursor reached (from line 1, column 1) after
+consuming a NON-EMPTY prefix of the text — the position just after the token's last character —,
+hence never beyond the end of the text; and the position of a lexical error is the cursor reached
+after some prefix of the text (possibly all of it): at or before the offending character. -/
+theorem token_locs_in_text {cs : List Char} {ts : List LToken} {e : Option Lex.LexErr}
+    (h : Lex.all cs = (ts, e)) :
+    (∀ t ∈ ts, ∃ pre, pre ≠ [] ∧ pre <+: cs ∧ t.loc = some (Text.advs pre (1, 1))) ∧
+    (∀ pe, e = some pe → ∃ pre, pre <+: cs ∧ pe = Text.advs pre (1, 1)) := by
+  have := ProgLoc.all_cursors cs
+  rw [h] at this
+  exact ⟨fun t ht => this.1.mem t ht, this.2⟩
+
+/-- The tokens lie one after the other in the text: the cursor of each token is reached after a
+further non-empty chunk of text behind the previous token's cursor (`LexLoc.TokCursors`). So the
+tokens of two different top-level forms occupy disjoint, consecutive segments of the text. -/
+theorem token_cursors_consecutive (cs : List Char) : LexLoc.TokCursors cs (1, 1) (Lex.all cs).1 :=
+  (ProgLoc.all_cursors cs).1
+
+/-- the cursors along `a\nbc`: after `a` 1:2, after the line break 2:1, after `bc` 2:3 -/
+example : Text.advs "a".toList (1, 1) = (1, 2) ∧ Text.advs "a\n".toList (1, 1) = (2, 1) ∧
+    Text.advs "a\nbc".toList (1, 1) = (2, 3) := by decide
+
+/-! ## 2. the reader: data take their positions from the tokens consumed -/
+
+/-- Every position inside a datum returned by `Read.nextDatum` is the position of one of the tokens
+consumed for that datum (`used`, a contiguous piece of the token stream): it lies within the extent
+of the form, between its first and its last token. -/
+theorem reader_locs_from_tokens {s s' : Read.PState} {od : Option Datum}
+    (h : Read.nextDatum s = .ok (od, s')) :
+    ∃ used : List LToken, s.toks = used ++ s'.toks ∧ ∀ d, od = some d → LocsIn (locs used) d := by
+  obtain ⟨used, hs, -, hd⟩ := ProgLoc.nextDatum_steps h
+  exact ⟨used, hs.toks, fun d hd' l hl => hd d hd' hl⟩
+
+/-- The same for `currentDatum` (the datum that starts at the current token): the positions are
+those of the current token / the parser's current position and of the tokens consumed. -/
+theorem reader_locs_from_tokens_current {fuel : Nat} {s s' : Read.PState} {od : Option Datum}
+    (h : Read.currentDatum fuel s = .ok (od, s')) :
+    ∃ used : List LToken, s.toks = used ++ s'.toks ∧
+      ∀ d, od = some d → LocsIn (ReadLoc.here s ++ locs used) d := by
+  obtain ⟨used, hs, hd⟩ := (ReadLoc.readAt fuel).cur_ok _ _ _ h
+  exact ⟨used, hs.toks, fun d hd' l hl => hd d hd' hl⟩
+
+/-- A located reader error is located at the parser's current position (the last token pulled:
+"unexpected end"), at a token of the rest of the stream (the offending token), or where the lexer
+failed. -/
+theorem reader_error_loc {s : Read.PState} {k : Err} {l : Pos}
+    (h : Read.nextDatum s = .error (k, some l)) :
+    l ∈ ReadLoc.here s ∨ l ∈ locs s.toks ∨ s.lexErr = some l := by
+  have := ReadLoc.nextDatum_err h (a := l) (by simp)
+  simp only [ReadLoc.errs, List.mem_append] at this
+  rcases this with h | h | h
+  · exact Or.inl h
+  · exact Or.inr (Or.inl h)
+  · exact Or.inr (Or.inr (by simpa using h))
+
+/-- reading `(a b)` from its tokens (located 1:2, 1:3, 1:5, 1:6) -/
+example : ∃ d s', Read.nextDatum { toks := [⟨.lparen, some (1, 2)⟩, ⟨.ident "a", some (1, 3)⟩,
+      ⟨.ident "b", some (1, 5)⟩, ⟨.rparen, some (1, 6)⟩], lexErr := none } = .ok (some d, s') ∧
+    locs d = [(1, 2), (1, 3), (1, 5)] ∧ s'.toks = [] := by
+  simp [Read.nextDatum, Read.advance, Read.currentDatum, Read.listOrPair, Read.listLoop,
+    Read.advanceUnwrap, Read.fuelFor, Read.snoc, Datum.withLoc, bind, Except.bind, pure, Except.pure]
+  exact ⟨_, _, ⟨rfl, rfl⟩, rfl, rfl⟩
+
 /-! ## 3. macro expansion: every position of an expansion is a position of the macro use -/
 
 /-- The bindings produced by matching a pattern against the macro use are sub-data of the use:
@@ -344,5 +409,38 @@ example : (evalAst 9 { store := demoStore } (.expr (.call (.sym "f" (some (2, 3)
   simp [evalAst, evalExprOrDef, evalExpr, evalArgs, applyProcedure, applyLoop, applyScheme, evalDefs,
     evalBody, evalTail, bindFixed, procArity, demoStore, Store.lookup, Store.lookupAux, arityOk,
     Lambda.formals, Store.newFrame, enter, leave, Lambda.defs, Lambda.body, List.lookup]
+
+/-! ## whole programs -/
+
+/-- `Interpreter::eval` on a program text, form after form: a reported position is a position of
+code the state already held (none after `new_with_stdlib`, see below), or the cursor reached after
+some prefix of the PROGRAM TEXT — never beyond the end of the file —, or the error arose while
+reading a library source. Syntax errors (lexer, reader, transformer) are included. -/
+theorem program_error_loc {fuel : Nat} {st st' : State} {text : List Char} {k : Err} {l : Pos}
+    (h : evalText fuel st text = (.error (k, some l), st')) :
+    l ∈ locs st ∨ (∃ pre, pre <+: text ∧ l = Text.advs pre (1, 1)) ∨ LibReadErr (k, some l) :=
+  ProgLoc.evalText_loc h
+
+/-- For the interpreter as the CLI and the harness build it (`default()` or `new_with_stdlib()`):
+its state holds no position at all, so every position it reports for a program is a cursor inside
+the program text (or stems from reading a user library source). -/
+theorem stdlib_program_error_loc {fuel f : Nat} {withHost : Bool} {st' : State} {text : List Char}
+    {k : Err} {l : Pos}
+    (h : evalText fuel (withStdlib f withHost) text = (.error (k, some l), st')) :
+    (∃ pre, pre <+: text ∧ l = Text.advs pre (1, 1)) ∨ LibReadErr (k, some l) := by
+  rcases program_error_loc h with h | h
+  · have : locs (withStdlib f withHost) = [] := by
+      show unrole (withStdlib f withHost).rlocs = []
+      rw [ProgLoc.withStdlib_unlocated]; rfl
+    rw [this] at h; cases h
+  · exact h
+
+theorem default_state_unlocated (withHost : Bool) (f : Nat) :
+    locs (default_ withHost) = [] ∧ locs (withStdlib f withHost) = [] := by
+  constructor
+  · show unrole (default_ withHost).rlocs = []
+    rw [ProgLoc.default_unlocated]; rfl
+  · show unrole (withStdlib f withHost).rlocs = []
+    rw [ProgLoc.withStdlib_unlocated]; rfl
 
 end Ruschm.C15
